@@ -23,6 +23,12 @@ pub fn gen_sources(tier: &str, seed: u64) -> Vec<String> {
         "<c><v slot:a slot:b-c=\"a\" x=\"{{ a }}{{ bC }}\">{{ a }}{{ b }}</v>{{ a }}</c>".into(),
         "<v wx:if=\"{{ item }}\" wx:for=\"{{ l }}\">{{ item }}</v><v wx:elif=\"{{ item }}\"/>".into(),
         "<slot name=\"{{ a }}\" v=\"{{ b }}\" id=\"{{ c }}\"/><include src=\"x\"/>{{ d }}".into(),
+        // a <slot> binds its own slot: values for its own attributes (name, value attributes, data:, mark:)
+        "<c><slot name=\"cell-{{ n2 }}\" slot:row slot:pos=\"n2\" value=\"{{ row }}\" data:d=\"{{ n2 }}\" mark:m=\"{{ row.a }}\"/>{{ row }}{{ n2 }}</c>".into(),
+        "<v wx:for=\"{{ l }}\" wx:for-item=\"row\"><c><slot slot:row=\"r2\" v=\"{{ row }}{{ r2 }}\"/></c></v>".into(),
+        // a wx:for over a static string, a wx:if group whose conditions are all static: still dynamic subtrees
+        "<v wx:for=\"abc\">{{ a }}{{ item }}</v><v x=\"{{ a }}\"/>".into(),
+        "<v wx:if=\"on\">{{ b }}</v><v wx:else>{{ c }}</v><w y=\"{{ b }}{{ c }}\"/>".into(),
         // an include anywhere (static tree, wx:if / wx:for subtree, sub-template body) switches the binding map off
         "<v>{{ a }}</v><block wx:if=\"{{ b }}\"><include src=\"/inc\"/></block>".into(),
         "<v x=\"{{ a }}\"/><v wx:for=\"{{ l }}\"><include src=\"/inc\"/>{{ item }}</v>{{ c }}".into(),
@@ -200,6 +206,20 @@ pub fn run_val(tier: &str, seed: u64, out: &mut Out) {
                                      "max_level": max_level, "datas": datas, "depth": depth, "module": with_module, "slot_levels": n_slot_levels,
                                      "slotValues": {"$o": {"sv": "SLOT-sv", "aB": {"$a": [{"$o": {"sub": {"$a": ["s1", "s2"]}, "a": "SLOT-aB"}}]},
                                                            "item": {"$o": {"sub": {"$o": {"k": "SLOT-item"}}, "a": 3}}, "x": "SLOT-x"}}});
+        out.raw(&job.to_string());
+    }
+    // hand-written: an inline module declared before an external one (the generated variables of the two kinds of module
+    // must follow the declaration order the analysis uses), read at top level, in a loop and in a sub-template
+    {
+        let src = "<wxs module=\"a\">exports.v = 'INL'</wxs><wxs module=\"b\" src=\"/e1\"/><wxs module=\"c\">exports.v = 'INL2'</wxs>X{{ a.v }}|{{ b.v }}|{{ c.v }}<block wx:for=\"{{ [1] }}\">Y{{ a.v }}{{ b.v }}{{ c.v }}{{ item }}</block><template name=\"t\">Z{{ b.v }}{{ a.v }}</template><template is=\"t\"/>";
+        let mut g = TmplGroup::new();
+        g.add_script("e1", "exports.v = 'EXT'");
+        let diags = { crate::util::note_input(src); g.add_tmpl("p", src) };
+        let max_level = diags.iter().map(|d| d.kind.level() as u8).max().unwrap_or(0);
+        let bundle = g.get_tmpl_gen_object_groups().unwrap_or_default();
+        let job = serde_json::json!({"kind": "scopeval", "id": n, "src": src, "ref": "(() => ['XINL|EXT|INL2', 'YINLEXTINL21', 'ZEXTINL'])()", "bundle": bundle,
+                                     "max_level": max_level, "datas": [{"$o": {"a": "DATA-a", "b": "DATA-b"}}], "depth": 1, "module": true, "slot_levels": 0,
+                                     "slotValues": {"$o": {}}});
         out.raw(&job.to_string());
     }
 }
